@@ -982,6 +982,11 @@ class state( dict ):
                             assert ( None in machine.map[pre] ), \
                                 "If 2 transitions, one must be '.' (anychar): %r" % ( 
                                     machine.map[pre] )
+                        if nxt not in states:
+                            # A transition into a "dead" state must be refused on the symbol's first
+                            # encoded element; otherwise, the extra states would consume the leading
+                            # element(s) of a symbol the regular expression cannot accept.
+                            xformed = xformed[:1]
 
                     # Add and link up additional required states; lst will index last added one (if
                     # any; otherwise it will be pre)
